@@ -2,6 +2,7 @@ package main
 
 import (
 	"fmt"
+	"hash/fnv"
 	"os"
 	"path"
 	"strings"
@@ -78,15 +79,38 @@ func c12Spec(seq []c12sym) int {
 
 func c12Real(seq []c12sym) (idx int, msg string) {
 	var v fsutil.Validator
+	// the statement does not distinguish an added from a modified entry, nor
+	// what a delete record carries as file info: which of them a record uses
+	// is derived from the sequence itself (a third of the entries are modify
+	// records, deletes carry nothing, a directory or a file)
+	h := fnv.New64a()
+	for _, s := range seq {
+		fmt.Fprintf(h, "%s|%d;", s.p, s.k)
+	}
+	salt := h.Sum64()
 	for i, s := range seq {
 		var err error
+		pick := (salt >> (uint(i%20) * 3)) & 7
+		kind := fsutil.ChangeKindAdd
+		if pick < 3 {
+			kind = fsutil.ChangeKindModify
+		}
+		dirInfo := &fsutil.StatInfo{Stat: &types.Stat{Path: s.p, Mode: uint32(os.ModeDir | 0755)}}
+		fileInfo := &fsutil.StatInfo{Stat: &types.Stat{Path: s.p, Mode: 0644}}
 		switch s.k {
 		case kDir:
-			err = v.HandleChange(fsutil.ChangeKindAdd, s.p, &fsutil.StatInfo{Stat: &types.Stat{Path: s.p, Mode: uint32(os.ModeDir | 0755)}}, nil)
+			err = v.HandleChange(kind, s.p, dirInfo, nil)
 		case kFile:
-			err = v.HandleChange(fsutil.ChangeKindAdd, s.p, &fsutil.StatInfo{Stat: &types.Stat{Path: s.p, Mode: 0644}}, nil)
+			err = v.HandleChange(kind, s.p, fileInfo, nil)
 		case kDel:
-			err = v.HandleChange(fsutil.ChangeKindDelete, s.p, nil, nil)
+			switch {
+			case pick < 4:
+				err = v.HandleChange(fsutil.ChangeKindDelete, s.p, nil, nil)
+			case pick < 6:
+				err = v.HandleChange(fsutil.ChangeKindDelete, s.p, dirInfo, nil)
+			default:
+				err = v.HandleChange(fsutil.ChangeKindDelete, s.p, fileInfo, nil)
+			}
 		}
 		if err != nil {
 			return i, err.Error()
@@ -299,7 +323,7 @@ func init() {
 	core.Register(&core.Prop{
 		ID:    "C12",
 		Level: "exploration",
-		Rule: "case 0 checks the order axioms on all pairs/triples of a path alphabet; cases 1..N enumerate EVERY sequence with a fixed pair of leading symbols up to the length bound over a 32-path x {dir,file,delete} alphabet (prefixes rejected by both sides are pruned, as the receiver stops there); remaining cases are random sequences up to length 60, deep chains, and valid listings of random trees over the names {a,b,x} (depth <= 4, the same directory names recurring in different branches) with one structural mutation (a path moved to another branch, an element dropped, duplicated, swapped, or turned from directory into file). " +
+		Rule: "case 0 checks the order axioms on all pairs/triples of a path alphabet; cases 1..N enumerate EVERY sequence with a fixed pair of leading symbols up to the length bound over a 32-path x {dir,file,delete} alphabet (a third of the dir/file records are handed over as modify instead of add records, delete records carry no file info, a directory's or a file's; the choice is a function of the sequence; prefixes rejected by both sides are pruned, as the receiver stops there); remaining cases are random sequences up to length 60, deep chains, and valid listings of random trees over the names {a,b,x} (depth <= 4, the same directory names recurring in different branches) with one structural mutation (a path moved to another branch, an element dropped, duplicated, swapped, or turned from directory into file). " +
 			"Each sequence is fed to a fresh real Validator and to the specification; non-trivial = enumeration chunk or random batch containing at least one sequence the specification accepts beyond length 1; distinct by leading symbols / PRNG value",
 		Assumptions: []string{"os.FileInfo passed to the validator is fsutil.StatInfo, as the receiver does", "unix path separator"},
 		Cases: func(tier string) int {
